@@ -4591,6 +4591,31 @@ pub(crate) fn truncate_to_height_internal<P: consensus::Parameters>(
         )?;
     }
 
+    // Subtree roots that the wallet was given for subtrees completed above the truncation height
+    // are not facts about the retained chain. This is independent of whether any scanned state
+    // had to be removed above: the roots may describe blocks that the wallet has not scanned.
+    commitment_tree::discard_subtree_roots_above::<
+        ::sapling::Node,
+        { ::sapling::NOTE_COMMITMENT_TREE_DEPTH },
+        SAPLING_SHARD_HEIGHT,
+    >(conn, crate::SAPLING_TABLES_PREFIX, truncation_height)
+    .map_err(ShardTreeError::Storage)?;
+    #[cfg(feature = "orchard")]
+    {
+        commitment_tree::discard_subtree_roots_above::<
+            ::orchard::tree::MerkleHashOrchard,
+            { ::orchard::NOTE_COMMITMENT_TREE_DEPTH as u8 },
+            ORCHARD_SHARD_HEIGHT,
+        >(conn, crate::ORCHARD_TABLES_PREFIX, truncation_height)
+        .map_err(ShardTreeError::Storage)?;
+        commitment_tree::discard_subtree_roots_above::<
+            ::orchard::tree::MerkleHashOrchard,
+            { ::orchard::NOTE_COMMITMENT_TREE_DEPTH as u8 },
+            IRONWOOD_SHARD_HEIGHT,
+        >(conn, crate::IRONWOOD_TABLES_PREFIX, truncation_height)
+        .map_err(ShardTreeError::Storage)?;
+    }
+
     // Roll every stored pool migration back with the wallet. A migration's marks and mined heights
     // are chain-derived exactly as the wallet's own scanned state is, and must not be able to
     // outlive it: an unsatisfiability mark resting on a rolled-back observation would strand live
